@@ -5,7 +5,16 @@ import vlib
 
 
 def validate(v, module, cfg, trace_file, label):
+    if "KnownTags = {}" in cfg:
+        # recorded findings are handed to the trace specification, which reports instead of raising them
+        tags = sorted({f["signature"].split(":", 1)[1] for f in v.kf if f.get("signature", "").startswith("NoMismatch:")})
+        cfg = cfg.replace("KnownTags = {}", "KnownTags = {" + ", ".join(json.dumps(t) for t in tags) + "}")
     r = vlib.validate_traces(module, cfg, trace_file, timeout=1800)
+    if '"KNOWN"' in r["out"]:
+        import re
+        body = r["out"].split('"KNOWN"', 1)[1].split(">>", 1)[0]
+        for tag in re.findall(r'"((?:[^"\\]|\\.)*)"', body):
+            v.violation("NoMismatch:" + tag, f"{label}: {tag}", None)
     events = vlib.read_ndjson(trace_file)
     traces = vlib.split_traces(events)
     v.add_cov(events_validated=len(events))
